@@ -484,6 +484,7 @@ pub fn run(mut run: Run) -> i32 {
         &[
             "the harness executor polls a task only when its waker fired (strict) plus generated spurious polls; a quiescent unfinished run with no gate left is reported as a lost wake-up",
             "futures' mpsc and select! are part of the code under test",
+            "a progress value counts as reported once the future returned by receive_progress has been polled; an installer may drop that future unfinished and complete in the same poll (an 'impatient' installer), and the value must still be delivered before the outcome",
         ],
     )
 }
